@@ -257,14 +257,17 @@ func vpH_C07_T_stale_read_changed() {
 	vpAuditLog(s.st, "a", false, 0, false)
 }
 
-// vpH_C07_T_validation_slow: fault-free leader with a long heartbeat interval (H = 10 s, TTL 30 s) and a store
-// that answers every request after 3 s or just under H/2 = 5 s: its periodic validation (default
+// vpH_C07_T_validation_slow: fault-free leader with a long heartbeat interval (H = 10 s or 20 s, TTL 3H) and a
+// store that answers every request after 3 s, 6 s or just under H/2: its periodic validation (default
 // interval) must not mistake the slow answers for a lost record — never demoted, same token.
 func vpH_C07_T_validation_slow() {
-	tm := vpTiming{10 * time.Second, 30 * time.Second}
+	tm := []vpTiming{{10 * time.Second, 30 * time.Second}, {20 * time.Second, 60 * time.Second}}[vpChoose("timing", 2)]
 	s := vpLeadingInstance(tm, 0, func(cfg *ElectionConfig) { cfg.ValidationInterval = 0 })
 	s.st.ttl = 0
-	s.kv.lat = []time.Duration{3 * time.Second, tm.H/2 - 1}[vpChoose("latency", 2)]
+	s.kv.lat = []time.Duration{3 * time.Second, 6 * time.Second, tm.H/2 - 1}[vpChoose("latency", 3)]
+	if s.kv.lat >= tm.H/2 {
+		vpEndPath("latency-not-below-half-interval")
+	}
 	s.kv.latMin = s.kv.lat
 	s.kv.opLeft = 12
 	tok := s.e.Token()
